@@ -105,7 +105,7 @@ Theorem step_inv : forall st t, Inv st -> Inv (step v_fixed st t).
 Proof.
   intros st t H. inv_facts H.
   unfold step. destruct (t_pc (threads st t)) eqn:E;
-    cbn [v_fixed v_store_locked v_detach_prewrite v_flusher_swap v_flag_in_writeaof negb andb].
+    cbn [v_fixed v_store_locked v_detach_prewrite v_flusher_swap v_flag_in_writeaof v_detach_store_locked negb andb orb].
   - (* CMD: lock *)
     destruct (lock st) eqn:EL; [exact H|].
     constructor; cbn [threads lock dirty buf file acked].
@@ -378,8 +378,8 @@ Qed.
 (* clearing the flag after the unlock (the pinned order of netServe): two connections, one command each *)
 Theorem store_after_unlock_refuted :
   exists progs sched c,
-    In c (acked (run_sched (mkVariant false true false true) progs sched)) /\
-    ~ In c (file (run_sched (mkVariant false true false true) progs sched)).
+    In c (acked (run_sched (mkVariant false true false true true) progs sched)) /\
+    ~ In c (file (run_sched (mkVariant false true false true true) progs sched)).
 Proof.
   exists f13_progs, f13_sched, 2%N. split.
   - vm_compute. auto.
@@ -389,8 +389,8 @@ Qed.
 (* no pre-write on the goingLive branch: one connection, no interleaving needed *)
 Theorem detach_no_prewrite_refuted :
   exists progs sched c,
-    In c (acked (run_sched (mkVariant true false false true) progs sched)) /\
-    ~ In c (file (run_sched (mkVariant true false false true) progs sched)).
+    In c (acked (run_sched (mkVariant true false false true true) progs sched)) /\
+    ~ In c (file (run_sched (mkVariant true false false true true) progs sched)).
 Proof.
   exists f13b_progs, f13b_sched, 1%N. split.
   - vm_compute. auto.
@@ -410,8 +410,8 @@ Qed.
 (* a flusher that clears the flag before it holds the lock *)
 Theorem flusher_swap_refuted :
   exists progs sched c,
-    In c (acked (run_sched (mkVariant true true true true) progs sched)) /\
-    ~ In c (file (run_sched (mkVariant true true true true) progs sched)).
+    In c (acked (run_sched (mkVariant true true true true true) progs sched)) /\
+    ~ In c (file (run_sched (mkVariant true true true true true) progs sched)).
 Proof.
   exists fswap_progs, fswap_sched, 1%N. split.
   - vm_compute. auto.
@@ -421,10 +421,21 @@ Qed.
 (* the flag raised by the dispatcher after writeAOF: script writes never raise it *)
 Theorem flag_in_dispatcher_refuted :
   exists progs sched c,
-    In c (acked (run_sched (mkVariant true true false false) progs sched)) /\
-    ~ In c (file (run_sched (mkVariant true true false false) progs sched)).
+    In c (acked (run_sched (mkVariant true true false false true) progs sched)) /\
+    ~ In c (file (run_sched (mkVariant true true false false true) progs sched)).
 Proof.
   exists fdisp_progs, fdisp_sched, 1%N. split.
+  - vm_compute. auto.
+  - apply mem_false_not_in. vm_compute. reflexivity.
+Qed.
+
+(* the goingLive copy unlocking before it clears the flag *)
+Theorem detach_store_unlocked_refuted :
+  exists progs sched c,
+    In c (acked (run_sched (mkVariant true true false true false) progs sched)) /\
+    ~ In c (file (run_sched (mkVariant true true false true false) progs sched)).
+Proof.
+  exists fdet_progs, fdet_sched, 2%N. split.
   - vm_compute. auto.
   - apply mem_false_not_in. vm_compute. reflexivity.
 Qed.
